@@ -1,31 +1,31 @@
 #!/bin/bash
 # usage: tools/parmut.sh <K> <listfile> <outfile>    listfile: lines "<label> <patch.diff> <CHECK-ID>"
 # Runs seeded changes against the checks in K private copies of /repo + /verif/harness (so that /repo itself stays
-# untouched and K runs proceed at once). Each copy lives under /root/par/<k>; removed afterwards.
-K=$1; LIST=$2; OUT=$3
+# untouched and K runs proceed at once). Each copy lives under $PARDIR/<k>; removed afterwards.
+K=$1; LIST=$2; OUT=$3; PARDIR=${PARDIR:-/root/par}
 export GOFLAGS=-mod=mod GOPROXY=off GOSUMDB=off GOTOOLCHAIN=local
-rm -rf /root/par; mkdir -p /root/par
+rm -rf $PARDIR; mkdir -p $PARDIR
 for k in $(seq 1 $K); do
-  mkdir -p /root/par/$k
+  mkdir -p $PARDIR/$k
   git -C /repo worktree prune
-  cp -r /repo /root/par/$k/repo; rm -rf /root/par/$k/repo/.git; (cd /root/par/$k/repo && git init -q && git add -A && git -c user.email=x@y -c user.name=x commit -qm base)
-  mkdir -p /root/par/$k/verif; cp -r /verif/harness /verif/check /verif/tools /verif/KNOWN_FINDINGS.json /verif/properties.jsonl /root/par/$k/verif/
-  sed -i "s#=> /repo#=> /root/par/$k/repo#" /root/par/$k/verif/harness/go.mod
+  cp -r /repo $PARDIR/$k/repo; rm -rf $PARDIR/$k/repo/.git; (cd $PARDIR/$k/repo && git init -q && git add -A && git -c user.email=x@y -c user.name=x commit -qm base)
+  mkdir -p $PARDIR/$k/verif; cp -r /verif/harness /verif/check /verif/tools /verif/KNOWN_FINDINGS.json /verif/properties.jsonl $PARDIR/$k/verif/
+  sed -i "s#=> /repo#=> $PARDIR/$k/repo#" $PARDIR/$k/verif/harness/go.mod
 done
 : > $OUT
 worker() {
   k=$1
   while read -r label patch chk; do
-    cd /root/par/$k/repo
+    cd $PARDIR/$k/repo
     if ! git apply "$patch" 2>/dev/null && ! git apply --3way "$patch" 2>/dev/null; then echo "$label [$chk] PATCH-DOES-NOT-APPLY" >> $OUT; git checkout -q -- . ; continue; fi
-    cd /root/par/$k/verif
-    VERIF_WATCHDOG_S=900 VERIF_SCRATCH=/root/par/$k timeout 1800 ./check $chk quick > /root/par/$k/out.log 2>&1; rc=$?
-    echo "$label [$chk] rc=$rc $(grep -c '^VIOLATION' /root/par/$k/out.log) VIOLATION lines; $(grep 'violating observations' /root/par/$k/out.log | cut -c1-160)" >> $OUT
-    cp /root/par/$k/out.log /root/parlog-$label.log 2>/dev/null; cd /root/par/$k/repo && git checkout -q -- . && git clean -fdq
+    cd $PARDIR/$k/verif
+    VERIF_WATCHDOG_S=900 VERIF_SCRATCH=$PARDIR/$k timeout 1800 ./check $chk quick > $PARDIR/$k/out.log 2>&1; rc=$?
+    echo "$label [$chk] rc=$rc $(grep -c '^VIOLATION' $PARDIR/$k/out.log) VIOLATION lines; $(grep 'violating observations' $PARDIR/$k/out.log | cut -c1-160)" >> $OUT
+    cp $PARDIR/$k/out.log $PARDIRlog-$label.log 2>/dev/null; cd $PARDIR/$k/repo && git checkout -q -- . && git clean -fdq
   done
 }
-split -n l/$K -d $LIST /root/par/list.
-for k in $(seq 1 $K); do worker $k < /root/par/list.0$((k-1)) & done
+split -n l/$K -d $LIST $PARDIR/list.
+for k in $(seq 1 $K); do worker $k < $PARDIR/list.0$((k-1)) & done
 wait
-rm -rf /root/par
+rm -rf $PARDIR
 echo FINISHED >> $OUT
